@@ -103,6 +103,16 @@ impl Xo {
         self.range(lo as u64, hi as u64) as usize
     }
 
+    /// Log-uniform size in `lo..=hi` (lo >= 1): every order of magnitude between the bounds is about equally
+    /// likely, so thresholds at arbitrary sizes (48, 100, 257, 3000, ...) are crossed by a fixed fraction of the
+    /// draws instead of only the ones near a hand-picked pool.
+    pub fn log_uniform(&mut self, lo: usize, hi: usize) -> usize {
+        debug_assert!(lo >= 1 && lo <= hi);
+        let (l, h) = ((lo as f64).ln(), ((hi as f64) + 1.0).ln());
+        let x = (l + self.f64_unit() * (h - l)).exp();
+        (x as usize).clamp(lo, hi)
+    }
+
     /// true with probability num/den
     #[inline]
     pub fn chance(&mut self, num: u64, den: u64) -> bool {
